@@ -118,11 +118,13 @@ class MaxItemsConstraint(Constraint):
 
 
 def to_hashable(data: Any) -> Any:
+    # JSON equality: arrays and objects are never equal, booleans are not numbers
     if isinstance(data, list):
-        return tuple(map(to_hashable, data))
+        return (list, *map(to_hashable, data))
     elif isinstance(data, dict):
-        sorted_keys = sorted(data)
-        return tuple(sorted_keys + [to_hashable(data[k]) for k in sorted_keys])
+        return (dict, *((k, to_hashable(data[k])) for k in sorted(data)))
+    elif isinstance(data, bool):
+        return (bool, data)
     else:
         return data
 
